@@ -107,17 +107,20 @@ def mk_frame_binop(tier='quick'):
         ia, ca = [0, 1], [0, 1]
         ib = [1, concretize(x, 0, 2)]
         cb = [concretize(y, 0, 2), 0]
-        fa = sf.Frame.from_records([[a00, a01], [a10, a11]], index=ia, columns=ca)
-        fb = sf.Frame.from_records([[b00, b01], [b10, b11]], index=ib, columns=cb)
+        # built from typed arrays (from_records would inspect every symbolic value for int magnitude: 2**8 paths)
+        fa = sf.Frame.from_items(((ca[0], env.array([a00, a10], 'int64')), (ca[1], env.array([a01, a11], 'int64'))), index=ia)
+        fb = sf.Frame.from_items(((cb[0], env.array([b00, b10], 'int64')), (cb[1], env.array([b01, b11], 'int64'))), index=ib)
         va = {(ia[i], ca[j]): v for i, row in enumerate([[a00, a01], [a10, a11]]) for j, v in enumerate(row)}
         vb = {(ib[i], cb[j]): v for i, row in enumerate([[b00, b01], [b10, b11]]) for j, v in enumerate(row)}
         r = fa + fb
         idx = r.index.values.tolist()
         cols = r.columns.values.tolist()
         vals = r.values.tolist()
-        got = sorted([[env.obs(i), env.obs(c), env.obs(vals[a][b])] for a, i in enumerate(idx) for b, c in enumerate(cols)])
-        exp = sorted([[i, c, (va[(i, c)] + vb[(i, c)] if (i, c) in va and (i, c) in vb else M)]
-                      for i in sorted(set(ia) | set(ib)) for c in sorted(set(ca) | set(cb))])
+        idx_o = [env.obs(i) for i in idx]
+        cols_o = [env.obs(c) for c in cols]
+        got = [[idx_o[a], cols_o[b], env.obs(vals[a][b])] for a in sorted(range(len(idx_o)), key=lambda t: idx_o[t]) for b in sorted(range(len(cols_o)), key=lambda t: cols_o[t])]
+        exp = [[i, c, (va[(i, c)] + vb[(i, c)] if (i, c) in va and (i, c) in vb else M)]
+               for i in sorted(set(ia) | set(ib)) for c in sorted(set(ca) | set(cb))]
         return [got, len(idx), len(cols)], [exp, len(set(ia) | set(ib)), len(set(ca) | set(cb))]
     return Cond('frame_binop_add', [('x', 'int'), ('y', 'int')] + [(p, 'int') for p in ('a00', 'a01', 'a10', 'a11', 'b00', 'b01', 'b10', 'b11')], body,
             ranges={'x': (0, 2), 'y': (0, 2)}, pre=['x != 1', 'y != 0'],
@@ -134,15 +137,17 @@ def body_frame_series(env, y0, y1, a00, a01, a10, a11, s0, s1):
     sf = env.sf
     cols = [0, 1]
     ls = [concretize(y0, 0, 2), concretize(y1, 0, 2)]
-    fa = sf.Frame.from_records([[a00, a01], [a10, a11]], index=[10, 11], columns=cols)
+    fa = sf.Frame.from_items(((0, env.array([a00, a10], 'int64')), (1, env.array([a01, a11], 'int64'))), index=[10, 11])
     s = sf.Series(env.array([s0, s1], 'int64'), index=ls)
     r = fa - s
     vs = {ls[0]: s0, ls[1]: s1}
     rows = [[a00, a01], [a10, a11]]
-    cidx = r.columns.values.tolist()
+    cidx = [env.obs(c) for c in r.columns.values.tolist()]
     vals = r.values.tolist()
-    got = sorted([[env.obs(c), env.obs(vals[i][j])] for i in range(2) for j, c in enumerate(cidx)] , key=lambda t: (t[0], str(t[1])))
-    exp = sorted([[c, (rows[i][cols.index(c)] - vs[c] if c in cols and c in vs else M)] for i in range(2) for c in sorted(set(cols) | set(ls))], key=lambda t: (t[0], str(t[1])))
+    # cells listed row by row in ascending column-label order (no sorting on cell values: they are symbolic)
+    order = sorted(range(len(cidx)), key=lambda j: cidx[j])
+    got = [[cidx[j], env.obs(vals[i][j])] for i in range(2) for j in order]
+    exp = [[c, (rows[i][cols.index(c)] - vs[c] if c in cols and c in vs else M)] for i in range(2) for c in sorted(set(cols) | set(ls))]
     return [got, env.obs(r.index.values.tolist())], [exp, [10, 11]]
 
 
